@@ -21,6 +21,9 @@ func init() {
 }
 
 func runC38(c *eng.Ctx) {
+	// ---------------------------------------------------------------- (0) PAIR-datafile
+	c.CheckLockPairs("PAIR-datafile", "weed/storage", "Volume.dataFileAccessLock", nil)
+	c.Expect("PAIR-datafile", 21)
 	P := c.P
 	inFiles := func(fn *ssa.Function) bool {
 		root := fn
